@@ -9,7 +9,10 @@ PROPS["C05"] = {
              "`C05_invariant` (delivered = payloads of the peer's stored application messages below the expected number); meaning of the prefix clause, faithfulness of the links, "
              "number round trip, per-engine delivery (C01). The statement without side conditions (`def C05_safety_full`) is FALSE of the model: an empty payload value is "
              "refused as malformed by the peer and consumed (#guard counterexample + theorem `C05_empty_payload_is_consumed`); the generator never produces one. "
-             "The liveness clause is NOT a theorem.",
+             "Liveness: `C05_liveness_reconnect` — after EVERY fault history (ResendRequestChunkSize 0, roles fixed, ApplVerID under FIXT, head-room for the numbers) the schedule "
+             "cut, connect, both Logons, one flush per side, deliveries ends with delivered = submitted in both directions, nothing in flight, both engines InSession "
+             "(all gap cases); `C05_liveness_nogap` (no gap: delivering what is in flight suffices). The chunked case is NOT proved (`def C05_liveness_full`); it is sampled. "
+             "Deliveries + heartbeats alone can leave a link stuck (needs the peer/logon/logout timeouts or a reconnect): #guard + corpus/C05/stuck-without-timeouts.ops, same on the real engines.",
     "note": "Lean kernel + standard axioms for the listed theorems; the Link model composes two copies of the session model that is tied to the code by the sess family; "
             "sockets, goroutine scheduling, reconnect timers and bufio are outside the model (partial); liveness rests on the correspondence runs only",
     "rule": "seeded fault histories of 30-80 events + settling rounds; BeginString 4.0-4.4/FIXT, chunk sizes 0-4 per side, memory/file store; distinct = distinct (configuration, case)",
